@@ -116,8 +116,8 @@ def generate(prop, seed, tier):
 
 
 def execute(prop, desc):
-    world = desc["world"]
     hist = machine.History(desc)
+    world = hist.world
     hist.init_sources()
     tapes = desc.get("tapes") or {}
     viol = []
